@@ -21,6 +21,9 @@ EXPLANATION = (
     "of hue between getter, hsl tuple, setters and hsl_to_int. R13.7: clamps (crimp 0..255, opacity 0..1, percent "
     "ratio 255/100). R13.8: hue wraps modulo a full turn before the single-wrap helper. R13.9: routing of Color.parse. "
     "Not decided: the HSL<->RGB float formulas and rounding."
+    ' R13.7 also bounds the saturation and lightness that parse_color_hsl hands to the conversion: the range of'
+    ' each (last assignment, min()/max() against constants, comparison clamps, division by a positive constant)'
+    ' must be exactly [0, 1].'
 )
 TECHNIQUE = (
     "static analysis (no execution): 147-keyword if-chain vs CSS table incl. shadowing; hex layouts by partial evaluation on marker strings; channel bit-field layouts evaluated symbolically; regex-vs-converter language inclusion"
